@@ -14,7 +14,6 @@ import (
 	"fmt"
 	"io"
 	"os"
-	"strconv"
 	"strings"
 	"sync"
 	"sync/atomic"
@@ -44,109 +43,6 @@ func TestVerifC03(t *testing.T) {
 	})
 }
 
-func c03Num(p string) uint64 {
-	i := strings.LastIndex(p, "/")
-	n, _ := strconv.ParseUint(p[i+1:], 10, 64)
-	return n
-}
-
-func c03Size(n uint64) uint64 { return 1000 + n%5000 }
-
-// c03Model: the peer's reply to a request is a pure function of the request.
-type c03Peer struct {
-	mu       sync.Mutex
-	handles  map[string]uint64 // handle -> file number
-	nh       int
-	writes   map[string][]byte // handle:offset -> data
-	inflight map[uint32]bool
-	maxIn    int
-	short    *vfRand // if set: READ replies carry a random non-empty prefix of what was asked (legal for a server)
-	dupID    string
-	badFrame string
-}
-
-func (m *c03Peer) handler(req vfPkt, raw []byte) []byte {
-	st := func(code uint32, msg string) []byte { return vfStatusFrame(req.ID, code, msg) }
-	n := c03Num(req.Path)
-	switch req.Type {
-	case rfStat:
-		return vfPkt{Type: rfAttrs, ID: req.ID, Attrs: vfAttrs{Flags: 0xD, Size: c03Size(n), Perm: 0o100644, Atime: uint32(n), Mtime: uint32(n + 7)}}.Frame()
-	case rfLstat:
-		return vfPkt{Type: rfAttrs, ID: req.ID, Attrs: vfAttrs{Flags: 0xD, Size: c03Size(n) + 1, Perm: 0o100600, Atime: uint32(n), Mtime: uint32(n + 9)}}.Frame()
-	case rfReadlink:
-		return vfPkt{Type: rfName, ID: req.ID, Names: []vfName{{Name: fmt.Sprintf("/target/%d", n), Long: "x"}}}.Frame()
-	case rfRealpath:
-		return vfPkt{Type: rfName, ID: req.ID, Names: []vfName{{Name: fmt.Sprintf("/real/%d", n), Long: "x"}}}.Frame()
-	case rfMkdir:
-		if n%3 == 0 {
-			return st(rfFailure, fmt.Sprintf("mk-%d", n))
-		}
-		return st(rfOK, "")
-	case rfRemove:
-		if n%2 == 0 {
-			return st(rfPermDenied, fmt.Sprintf("rm-%d", n))
-		}
-		return st(rfOK, "")
-	case rfRmdir:
-		return st(rfFailure, fmt.Sprintf("rmdir-%d", n))
-	case rfRename:
-		if n%4 == 1 {
-			return st(rfNoSuchFile, fmt.Sprintf("mv-%d", n))
-		}
-		return st(rfOK, "")
-	case rfOpen:
-		m.mu.Lock()
-		m.nh++
-		h := fmt.Sprintf("h%d-%d", n, m.nh)
-		m.handles[h] = n
-		m.mu.Unlock()
-		return vfPkt{Type: rfHandle, ID: req.ID, Handle: h}.Frame()
-	case rfClose:
-		return st(rfOK, "")
-	case rfFstat:
-		m.mu.Lock()
-		fn := m.handles[req.Handle]
-		m.mu.Unlock()
-		return vfPkt{Type: rfAttrs, ID: req.ID, Attrs: vfAttrs{Flags: 0xD, Size: c03Size(fn), Perm: 0o100644, Mtime: uint32(fn)}}.Frame()
-	case rfRead:
-		m.mu.Lock()
-		fn, ok := m.handles[req.Handle]
-		m.mu.Unlock()
-		if !ok {
-			return st(rfFailure, "bad handle")
-		}
-		size := c03Size(fn)
-		if req.Off >= size {
-			return st(rfEOF, "EOF")
-		}
-		l := min(uint64(req.Len), size-req.Off)
-		if m.short != nil && l > 1 {
-			m.mu.Lock()
-			l = 1 + uint64(m.short.Intn(int(l)))
-			m.mu.Unlock()
-		}
-		return vfPkt{Type: rfData, ID: req.ID, Data: vfPattern(fn, int64(req.Off), int(l))}.Frame()
-	case rfWrite:
-		m.mu.Lock()
-		fn, ok := m.handles[req.Handle]
-		if ok {
-			// the data must be the pattern the writer derives from (file, offset): a mixed-up frame shows here
-			if !bytes.Equal(req.Data, vfPattern(fn+1000, int64(req.Off), len(req.Data))) {
-				m.badFrame = fmt.Sprintf("WRITE on %s at %d carries bytes that do not belong to that file/offset", req.Handle, req.Off)
-			}
-		}
-		m.mu.Unlock()
-		if !ok {
-			return st(rfFailure, "bad handle")
-		}
-		if req.Off%7 == 3 {
-			return st(rfFailure, fmt.Sprintf("wr-%d", req.Off))
-		}
-		return st(rfOK, "")
-	}
-	return st(rfUnsupported, "unsupported")
-}
-
 func c03Run(u *vfUnit) {
 	r := u.Rng
 	for si := 0; si < 5; si++ {
@@ -157,7 +53,7 @@ func c03Run(u *vfUnit) {
 		wrap := (u.Index*5+si)%8 == 0
 		buf := []int{0, 4096}[(si+u.Index)%2]
 		label := fmt.Sprintf("goroutines=%d/K=%d/P=%d/C=%d/wrap=%v/buf=%d", nG, K, P, C, wrap, buf)
-		model := &c03Peer{handles: map[string]uint64{}, writes: map[string][]byte{}, inflight: map[uint32]bool{}}
+		model := &vfModel{handles: map[string]uint64{}, writes: map[string][]byte{}, inflight: map[uint32]bool{}}
 		shortReads := si == 4
 		if shortReads {
 			// short DATA replies are only legal where the client does not equate them with EOF: sequential reads
@@ -235,13 +131,13 @@ func c03Run(u *vfUnit) {
 					switch op := rr.Intn(12); op {
 					case 0:
 						fi, err := c.Stat(fmt.Sprintf("/s/%d", n))
-						if err != nil || uint64(fi.Size()) != c03Size(n) || fi.ModTime().Unix() != int64(uint32(n+7)) || fi.Mode().Perm() != 0o644 {
-							report("Stat", fmt.Sprintf("Stat(/s/%d) returned %v err %v; the reply to this request carries size %d mtime %d", n, fi, err, c03Size(n), n+7))
+						if err != nil || uint64(fi.Size()) != vfModelSize(n) || fi.ModTime().Unix() != int64(uint32(n+7)) || fi.Mode().Perm() != 0o644 {
+							report("Stat", fmt.Sprintf("Stat(/s/%d) returned %v err %v; the reply to this request carries size %d mtime %d", n, fi, err, vfModelSize(n), n+7))
 						}
 					case 1:
 						fi, err := c.Lstat(fmt.Sprintf("/s/%d", n))
-						if err != nil || uint64(fi.Size()) != c03Size(n)+1 || fi.ModTime().Unix() != int64(uint32(n+9)) {
-							report("Lstat", fmt.Sprintf("Lstat(/s/%d) returned size %v err %v, want size %d", n, fi, err, c03Size(n)+1))
+						if err != nil || uint64(fi.Size()) != vfModelSize(n)+1 || fi.ModTime().Unix() != int64(uint32(n+9)) {
+							report("Lstat", fmt.Sprintf("Lstat(/s/%d) returned size %v err %v, want size %d", n, fi, err, vfModelSize(n)+1))
 						}
 					case 2:
 						s, err := c.ReadLink(fmt.Sprintf("/l/%d", n))
@@ -269,7 +165,7 @@ func c03Run(u *vfUnit) {
 						}
 						k := rr.Intn(len(shared))
 						fn := uint64(100 + k)
-						size := int(c03Size(fn))
+						size := int(vfModelSize(fn))
 						off := rr.Intn(size)
 						l := 1 + rr.Intn(min(size, 5*P+3))
 						bufr := bytes.Repeat([]byte{0xEE}, l)
@@ -309,7 +205,7 @@ func c03Run(u *vfUnit) {
 						}
 						k := rr.Intn(len(shared))
 						fi, err := shared[k].Stat()
-						if err != nil || uint64(fi.Size()) != c03Size(uint64(100+k)) {
+						if err != nil || uint64(fi.Size()) != vfModelSize(uint64(100+k)) {
 							report("File.Stat", fmt.Sprintf("Stat of shared file %d = %v, %v", 100+k, fi, err))
 						}
 					case 11: // private open / read all / close
@@ -321,8 +217,8 @@ func c03Run(u *vfUnit) {
 						}
 						var w bytes.Buffer
 						nn, err := f.WriteTo(&w)
-						if err != nil || nn != int64(c03Size(fn)) || !bytes.Equal(w.Bytes(), vfPattern(fn, 0, int(c03Size(fn)))) {
-							report("WriteTo", fmt.Sprintf("WriteTo(file %d) = (%d, %v); content differs at %d", fn, nn, err, vfFirstDiff(w.Bytes(), vfPattern(fn, 0, int(c03Size(fn))))))
+						if err != nil || nn != int64(vfModelSize(fn)) || !bytes.Equal(w.Bytes(), vfPattern(fn, 0, int(vfModelSize(fn)))) {
+							report("WriteTo", fmt.Sprintf("WriteTo(file %d) = (%d, %v); content differs at %d", fn, nn, err, vfFirstDiff(w.Bytes(), vfPattern(fn, 0, int(vfModelSize(fn))))))
 						}
 						f.Close()
 					}
